@@ -462,6 +462,14 @@ class Escape:
         return g
 
     def _ext(self, name, call, f, loc, out, record):
+        if name.endswith("()()"):
+            # the callee is a value returned by an external call (e.g. getattr(obj, name)(...)): arbitrary code
+            if record:
+                self.calls_classified["wild"] += 1
+                self.wild_sites.append((loc, "call of a value returned by %s" % name[:-4]))
+            out.setdefault((WILD, "dyn@%s:%s" % (f.qualname, ast.unparse(call.func))),
+                           ("%s %s: call of a value obtained from %s runs user or third-party code" % (loc, f.name, name[:-4]),))
+            return
         key = name
         if name == "builtins.getattr" and len(call.args) == 2:
             key = "builtins.getattr/2"
